@@ -3,7 +3,7 @@ CONSTANTS
   AckMode = "shaped"
   ThrMode = "fixed"
   EmptyMode = "fixed"
-  CfgSet <- CoreCfgs
+  CfgSet <- CoreCfgsQ
   SameCfg = FALSE
   Openers = {"A"}
   MaxOpens = 1
